@@ -22,6 +22,7 @@ RULE = ("corpus = standard-library code objects containing a with statement (20 
         "distinct code objects; non-trivial = has a certified observation with a non-empty truth / an exit in progress / a "
         "non-empty reported context list / >= 2 table entries / a non-empty logged truth")
 CONFIG = dict(
+    escalate=False,
     coq=["C20"], level="proof",
     claim=("Coq theorems: (1) for every code object whose certificate Coq's checker accepts (checkk KRef), at every "
            "suspension point of every execution of the with-machine the referents-mode answer (bound exit methods on the "
@@ -47,14 +48,174 @@ CONFIG = dict(
 )
 
 
+KINDS["mode"] = dict(imports=WC.IMPORTS, type="mode_case", mismatch="mode_mismatches", nontrivial="mode_nontrivial")
+
+
+def mode_descs(tier, seed):
+    """operation sequences over set_trickery_enabled(True/False/None) and "extract now" (C), run from the
+    undetermined state, in an environment where the auto-detection self-test succeeds (detect) and in one
+    where it fails; `thr` = which operations are issued from a fresh second thread"""
+    import itertools
+    import random
+    rng = random.Random(seed * 9176 + 11)
+    n = 3 if tier == "quick" else 5
+    for detect in (True, False):
+        for L in range(1, n + 1):
+            for ops in itertools.product("TFNC", repeat=L):
+                if "C" not in ops:
+                    continue
+                yield {"_kind": "mode", "detect": detect, "ops": "".join(ops), "thr": rng.getrandbits(L)}
+        for _ in range(60 if tier == "quick" else 600):
+            L = rng.randint(4, 12)
+            ops = "".join(rng.choice("TFNCCC") for _ in range(L))
+            yield {"_kind": "mode", "detect": detect, "ops": ops, "thr": rng.getrandbits(L)}
+
+
 def make_inputs(tier, seed):
+    yield from mode_descs(tier, seed)
     yield from WC.make_descs(tier, seed, "susp")
 
 
-run_case = WC.run_case
-coq_case = WC.coq_case
-direct_oracle = WC.direct_oracle
-classify = WC.classify
+_MODE_TARGET = []
+
+
+def run_mode(d):
+    """observed: per operation the mode a real contexts_active_in_frame call showed (None for a set) and
+    whether the auto-detection warning was emitted"""
+    import contextlib
+    import io
+    import threading
+    import warnings
+    from stackscope import _lowlevel as ll
+
+    if not _MODE_TARGET:
+        class CM:
+            def __enter__(self):
+                return self
+
+            def __exit__(self, *a):
+                return False
+
+        def target():
+            with CM() as first:
+                with CM() as second:
+                    yield 1
+        g = target()
+        next(g)
+        _MODE_TARGET.append(g)
+    g = _MODE_TARGET[0]
+    saved = ll._can_use_trickery
+    orig = ll._contexts_active_by_trickery
+    selftest_code = ll._check_trickery_available.__code__
+
+    def broken(frame, *a, **kw):
+        # the self-test's own frames are the functions defined inside _check_trickery_available
+        if frame.f_code in _nested(selftest_code):
+            raise RuntimeError("self-test made to fail by the harness")
+        return orig(frame, *a, **kw)
+
+    outs, ws, bad = [], [], []
+
+    def one(op):
+        with warnings.catch_warnings(record=True) as wl:
+            warnings.simplefilter("always")
+            with contextlib.redirect_stderr(io.StringIO()):
+                if op == "C":
+                    try:
+                        cs = ll.contexts_active_in_frame(g.gi_frame, g)
+                    except BaseException as ex:
+                        bad.append("contexts_active_in_frame raised %r" % (ex,))
+                        cs = None
+                    if cs is not None:
+                        if len(cs) != 2:
+                            bad.append("wrong number of contexts: %d" % len(cs))
+                        if cs and all(c.varname is not None and c.start_line is not None for c in cs):
+                            outs.append(True)
+                        elif cs and all(c.varname is None and c.start_line is None for c in cs):
+                            outs.append(False)
+                        else:
+                            bad.append("mixed / empty answer")
+                            outs.append(None)
+                    else:
+                        outs.append(None)
+                else:
+                    ll.set_trickery_enabled({"T": True, "F": False, "N": None}[op])
+                    outs.append(None)
+        detect_w = [w for w in wl if issubclass(w.category, ll.InspectionWarning)
+                    and ("on this interpreter" in str(w.message))]
+        other_w = [w for w in wl if issubclass(w.category, ll.InspectionWarning) and w not in detect_w]
+        if other_w:
+            bad.append("unexpected InspectionWarning: %s" % (str(other_w[0].message)[:200],))
+        if len(detect_w) > 1:
+            bad.append("auto-detection warned %d times in one operation" % len(detect_w))
+        ws.append(bool(detect_w))
+
+    try:
+        ll.set_trickery_enabled(None)
+        if not d["detect"]:
+            ll._contexts_active_by_trickery = broken
+        for i, op in enumerate(d["ops"]):
+            if (d.get("thr", 0) >> i) & 1:
+                th = threading.Thread(target=one, args=(op,))
+                th.start()
+                th.join(30)
+            else:
+                one(op)
+    finally:
+        ll._contexts_active_by_trickery = orig
+        ll.set_trickery_enabled(saved)
+    return {"outs": outs, "warns": ws, "bad": bad}
+
+
+_NESTED = {}
+
+
+def _nested(code):
+    if code not in _NESTED:
+        import types
+        out = set()
+        todo = [code]
+        while todo:
+            c = todo.pop()
+            for k in c.co_consts:
+                if isinstance(k, types.CodeType) and k not in out:
+                    out.add(k)
+                    todo.append(k)
+        _NESTED[code] = out
+    return _NESTED[code]
+
+
+def _b(x):
+    return "true" if x else "false"
+
+
+def run_case(d):
+    if d.get("_kind") == "mode":
+        return run_mode(d)
+    return WC.run_case(d)
+
+
+def coq_case(d, obs):
+    if d.get("_kind") == "mode":
+        if len(obs["outs"]) != len(d["ops"]):
+            return None
+        ops = "; ".join({"T": "TSet (Some true)", "F": "TSet (Some false)", "N": "TSet None", "C": "TCheck"}[o] for o in d["ops"])
+        outs = "; ".join("None" if o is None else "Some " + _b(o) for o in obs["outs"])
+        ws = "; ".join(_b(w) for w in obs["warns"])
+        return "(%s, [%s], [%s], [%s])" % (_b(d["detect"]), ops, outs, ws)
+    return WC.coq_case(d, obs)
+
+
+def direct_oracle(d, obs):
+    if d.get("_kind") == "mode":
+        return ("mode sequence %s (detect=%s): %s" % (d["ops"], d["detect"], "; ".join(obs["bad"]))) if obs["bad"] else None
+    return WC.direct_oracle(d, obs)
+
+
+def classify(d, obs):
+    if d.get("_kind") == "mode":
+        return "mode:detect=%s,len=%d" % (d["detect"], min(len(d["ops"]), 6))
+    return WC.classify(d, obs)
 
 
 def race_leg(rounds):
